@@ -129,3 +129,21 @@ package browse
 //@   requires 0 <= i && i < len(l.Items) && 0 <= j && j < len(l.Items)
 //@ func (byTime).Less
 //@   requires 0 <= i && i < len(l.Items) && 0 <= j && j < len(l.Items)
+
+//@ unit archive_types_admitted frames=on props=C19,C02,C11 dispenser_variants=on filter=`browse\.browseParse$`
+//@ use casketfile/contracts_verif.go:dispenser_api
+//@ use @verif/specs/stdlib.spec:stdlib
+//@ use @verif/specs/stdlib.spec:casket_api
+//@ // C19/C02 link to the handler (unit listing_sweep): an archive type gets into a configuration only if the writer table
+//@ // knows it. Two facts about package tables are assumed (listed): every key of ArchiveTypeToMime and every entry of the
+//@ // default list ArchiveTypes is one of the nine known types.
+//@ define knownArchive(t ArchiveType) bool = t == "zip" || t == "tar" || t == "tar.gz" || t == "tar.xz" || t == "tar.br" || t == "tar.bz2" || t == "tar.lz4" || t == "tar.sz" || t == "tar.zst"
+//@ invariant forall(k, 0, len(ArchiveTypes), knownArchive(ArchiveTypes[k]))
+//@ invariant (t ArchiveType) has(ArchiveTypeToMime, t) ==> knownArchive(t)
+//@ func browseParse
+//@   modifies Dispenser.cursor, Dispenser.nesting
+//@   requires c != nil
+//@   at call fieldstore:Config.ArchiveTypes before [only_known_archive_types_are_configured] forall(k, 0, len(arg1), knownArchive(arg1[k]))
+//@   loop 1 invariant forall(k, 0, len(ArchiveTypes), knownArchive(ArchiveTypes[k]))
+//@   loop 2 invariant forall(k, 0, len(ArchiveTypes), knownArchive(ArchiveTypes[k]))
+//@   loop 3 invariant forall(k, 0, len(ArchiveTypes), knownArchive(ArchiveTypes[k])) && forall(k, 0, len(types), knownArchive(types[k]))
